@@ -91,7 +91,7 @@ func c04Forms(v *big.Int) []string {
 func c04Run(t *testing.T, sub, keyName string, maxK int, nonrev bool, qb, tb time.Duration) {
 	r := vkit.Start(t, "C04", sub, qb, tb)
 	defer r.Finish()
-	r.Rule = "k=1..K attributes, values = rotation of {tag,0,1,2^Lm-1,2^Lm,2^(Lm+200)+c} over positions, every subset of {1..k} disclosed, both session kinds, via CreateDisclosureProof and via builder+BuildProofList; non-trivial = distinct (k,rotation,subset,session,path); oracle: verifies; key sets exact and values true; timestamp contribution exact; no hidden value (>=64 bits) nor its SHA-256 exponent appears as a JSON leaf or substring"
+	r.Rule = "k=1..K attributes, values = rotation of {tag,0,1,2^Lm-1,2^Lm,2^(Lm+200)+c} over positions, every subset of {1..k} disclosed (index list ascending, descending or rotated by one, by rotation number), both session kinds, via CreateDisclosureProof and via builder+BuildProofList; non-trivial = distinct (k,rotation,subset,session,path); oracle: verifies; key sets exact and values true; timestamp contribution exact; no hidden value (>=64 bits) nor its SHA-256 exponent appears as a JSON leaf or substring"
 	k := vfK(keyName)
 	pk := k.Pk
 	vfInstallEnv(t, "C04/"+sub, r.Seed)
@@ -125,7 +125,19 @@ func c04Run(t *testing.T, sub, keyName string, maxK int, nonrev bool, qb, tb tim
 					vals[i] = new(big.Int).Add(al[5], vfInt(int64(i)))
 				}
 			}
-			for _, D := range vfSubsets(1, kk) {
+			for _, Dsorted := range vfSubsets(1, kk) {
+				// the caller may list the chosen indices in any order: ascending, descending, rotated by one
+				D := append([]int{}, Dsorted...)
+				switch rot % 3 {
+				case 1:
+					for i, j := 0, len(D)-1; i < j; i, j = i+1, j-1 {
+						D[i], D[j] = D[j], D[i]
+					}
+				case 2:
+					if len(D) > 1 {
+						D = append(D[1:], D[0])
+					}
+				}
 				for _, issig := range []bool{false, true} {
 					_, mine := r.Next()
 					if !mine {
